@@ -270,7 +270,7 @@ class Normaliser:
             red = self.beta(new)
             if red is not None:
                 return red
-        return _fold_literal(new)
+        return _hoist_ifexp(_fold_literal(new))
 
     def helper_as_lambda(self, helper, env):
         a = helper.args
@@ -858,7 +858,7 @@ class Normaliser:
         if getattr(node, "_unpacked_item", False):
             new._unpacked_item = True
             new._unpack_arity = getattr(node, "_unpack_arity", None)
-        return _fold_literal(new)
+        return _hoist_ifexp(_fold_literal(new))
 
     def apply_decided(self, e):
         if e is None or not self.decided:
@@ -1992,6 +1992,28 @@ class _Prepass(ast.NodeTransformer):
     def _flatten_gens(self, node):
         for g in node.generators:
             it = g.iter
+            # `for k, v in filter(itemgetter(1), X)` is `for k, v in X if v`; `for x in filter(None, X)` is `for x in X if x`; `filter(lambda t: P, X)` likewise
+            if isinstance(it, ast.Call) and isinstance(it.func, ast.Name) and it.func.id == "filter" and len(it.args) == 2 and not it.keywords \
+                    and "filter" not in self.shadowed and not g.is_async:
+                pred, src = it.args
+                cond = None
+                if isinstance(pred, ast.Constant) and pred.value is None and isinstance(g.target, ast.Name):
+                    cond = ast.Name(id=g.target.id, ctx=ast.Load())
+                elif isinstance(pred, ast.Call) and isinstance(pred.func, ast.Name) and pred.func.id == "itemgetter" and "itemgetter" not in self.shadowed \
+                        and len(pred.args) == 1 and not pred.keywords and isinstance(pred.args[0], ast.Constant) and isinstance(pred.args[0].value, int) \
+                        and not isinstance(pred.args[0].value, bool) and isinstance(g.target, (ast.Tuple, ast.List)) \
+                        and all(isinstance(e, ast.Name) for e in g.target.elts) and 0 <= pred.args[0].value < len(g.target.elts):
+                    cond = ast.Name(id=g.target.elts[pred.args[0].value].id, ctx=ast.Load())
+                elif isinstance(pred, ast.Lambda) and isinstance(g.target, ast.Name) and len(pred.args.args) == 1 and not pred.args.defaults and not pred.args.vararg \
+                        and not pred.args.kwarg and not pred.args.kwonlyargs and not pred.args.posonlyargs \
+                        and not any(isinstance(x, (ast.Lambda, ast.ListComp, ast.GeneratorExp, ast.SetComp, ast.DictComp)) for x in ast.walk(pred.body)) \
+                        and (pred.args.args[0].arg == g.target.id or not any(isinstance(x, ast.Name) and x.id == g.target.id for x in ast.walk(pred.body))):
+                    import copy
+                    cond = _Rename({pred.args.args[0].arg: g.target.id}).visit(copy.deepcopy(pred.body)) if pred.args.args[0].arg != g.target.id else pred.body
+                if cond is not None:
+                    g.iter = src
+                    g.ifs = [ast.fix_missing_locations(ast.copy_location(cond, it))] + list(g.ifs)
+                    it = g.iter
             if isinstance(it, ast.Call) and isinstance(it.func, ast.Name) and it.func.id in ("tuple", "list") and len(it.args) == 1 and not it.keywords:
                 it = it.args[0]
             if isinstance(it, (ast.GeneratorExp, ast.ListComp)) and len(it.generators) == 1 and isinstance(it.elt, ast.Name) and isinstance(it.generators[0].target, ast.Name) \
@@ -3590,6 +3612,28 @@ def _ast_pure(e) -> bool:
         if isinstance(x, (ast.Yield, ast.YieldFrom, ast.Await, ast.NamedExpr)):
             return False
     return True
+
+
+def _hoist_ifexp(n):
+    """`(a if c else b) + r` is `(a + r) if c else (b + r)` (r side-effect free): a conditional operand of an arithmetic operation is moved outwards, so that
+    `t = a if c else b; return t + r` and `if c: return a + r` / `return b + r` meet in one spelling also where they cannot be lifted out of the expression
+    (inside a comprehension)"""
+    if not (isinstance(n, ast.BinOp) and isinstance(n.op, (ast.Add, ast.Sub, ast.Mult, ast.Div))):
+        return n
+    l, r = n.left, n.right
+    if isinstance(l, ast.IfExp) == isinstance(r, ast.IfExp):
+        return n
+    import copy
+    cond, other = (l, r) if isinstance(l, ast.IfExp) else (r, l)
+    if not _ast_pure(other) or sum(1 for _ in ast.walk(other)) > 60:
+        return n
+    if isinstance(l, ast.IfExp):
+        a = ast.BinOp(left=cond.body, op=n.op, right=other)
+        b = ast.BinOp(left=cond.orelse, op=n.op, right=copy.deepcopy(other))
+    else:
+        a = ast.BinOp(left=other, op=n.op, right=cond.body)
+        b = ast.BinOp(left=copy.deepcopy(other), op=n.op, right=cond.orelse)
+    return ast.IfExp(test=cond.test, body=a, orelse=b)
 
 
 def _fold_literal(n):
